@@ -107,6 +107,13 @@ def invariants(c, model, kind, step, op):
         else:
             why = f"count"
         vs.append(V("AVP list holds the expected objects in order", f"list/{why}/{tag}", f"step {step}: {len(got)} listed, {len(model)} expected"))
+    # item access reads the same list, from either end
+    try:
+        if got and not (all(c[i] is model[i] for i in range(len(model))) and c[-1] is model[-1]) and not vs:
+            vs.append(V("item access agrees with the AVP list", f"list/getitem/{tag}", f"step {step}"))
+    except (Exception,) + common.lib_errors() as e:
+        if not vs:
+            vs.append(V("item access agrees with the AVP list", f"list/getitem-raises/{tag}/{type(e).__name__}", repr(e)))
     names = names_of(c)
     listed = {id(a) for a in got}
     named = {}
